@@ -121,7 +121,8 @@ Definition resample_prior {P : Type} (init : nat -> list P) (ratio : T)
   let N := length ps in                                   (* cor_particles.state().cols() *)
   let np := num_prior N ratio in
   let nr := (N - np)%nat in
-  let kept := skipn np (sort_idx (map (sexp S) lw)) in    (* j >= num_prior_particles *)
+  let srt := sort_idx (map (sexp S) lw) in                (* sorted_indices *)
+  let kept := skipn np srt in                             (* j >= num_prior_particles *)
   let tmp_ps := match ps with [] => [] | d :: _ => map (fun i => nth i ps d) kept end in
   let tmp_lw := lse_normalise (map (fun i => nth i lw (s0 S)) kept) in
   let '(rps, rlw, rpar) := resample tmp_ps tmp_lw u1 in
@@ -129,7 +130,8 @@ Definition resample_prior {P : Type} (init : nat -> list P) (ratio : T)
   let right := mkPset nr rps rlw in
   let merged := pconcat left right in
   (mkPset (pcount merged) (pparts merged) (map (fun _ => log_uniform N) (plw merged)),
-   repeat (-1)%Z np ++ map (fun p => Z.of_nat (p + np)) rpar).
+   (* res_parents_right(k) = sorted_indices[res_parents_right(k) + num_prior_particles] *)
+   repeat (-1)%Z np ++ map (fun p => Z.of_nat (nth (p + np) srt 0%nat)) rpar).
 
 End C07.
 Arguments mkPset {_ P}. Arguments pcount {_ P}. Arguments pparts {_ P}. Arguments plw {_ P}.
